@@ -224,7 +224,8 @@ def partCfgOf (S0 : EinsumAS) (ps : PartSpec) : C04.PartCfg × (String → Nat) 
     | _, _ => default
   let stepF : String → Nat := fun nm => ((accOfT nm).coef ps.q).toNat * ps.n
   let haloF : String → Nat := fun nm => (((accOfT nm).rest ps.q).map fun t => t.1.toNat * (ext t.2 - 1)).sum
-  ({ q := ps.q, q0 := ps.q ++ "0", q1 := ps.q ++ "1", n := ps.n, fol := fol, stepF := stepF, haloF := haloF }, ext)
+  let preF : String → Nat := fun nm => (((accOfT nm).rest ps.q).map fun t => (-t.1).toNat * (ext t.2 - 1)).sum
+  ({ q := ps.q, q0 := ps.q ++ "0", q1 := ps.q ++ "1", n := ps.n, fol := fol, stepF := stepF, haloF := haloF, preF := preF }, ext)
 
 /-- the partitions present at the upper level: the coordinates at which every follower of the (single) term has a partition -/
 def presentParts (S0 : EinsumAS) (env : String → Pts) (ps : PartSpec) (c : C04.PartCfg) : List Nat :=
@@ -233,7 +234,7 @@ def presentParts (S0 : EinsumAS) (env : String → Pts) (ps : PartSpec) (c : C04
     let A := match tensors.find? (fun (x : TensorAS) => x.name == nm) with
       | some x => ((x.idx.getD i default).e.coef ps.q).toNat
       | none => 1
-    (heads (C04.splitHaloAt i (c.stepF nm) (c.haloF nm) (env nm))).map (· / A)
+    (heads (C04.splitHaloAt i (c.stepF nm) (c.preF nm) (c.haloF nm) (env nm))).map (· / A)
   match per with
   | [] => []
   | p :: rest => (p.filter fun k => rest.all fun l => l.contains k).mergeSort
@@ -242,9 +243,9 @@ def presentParts (S0 : EinsumAS) (env : String → Pts) (ps : PartSpec) (c : C04
     `(a*q1, a*q0 + rho)` on `(R1, R0)` of the halo-split tensor; the tile tensor `T'[q0 - q1]` stands for the range loop
     `iterRangeShapeRef(q1, min(q1 + n, Q))`.  Returns the Einsum, its inputs and, per follower, (tensor, depth, step, halo). -/
 def partitionedForm (S0 : EinsumAS) (env : String → Pts) (ps : PartSpec) (loop : List String) (exts : List Nat) :
-    EinsumAS × (String → Pts) × List (String × Nat × Nat × Nat) :=
+    EinsumAS × (String → Pts) × List (String × Nat × Nat × Nat × Nat) :=
   let (c, _) := partCfgOf S0 ps
-  let splits := ps.followers.map fun (nm, i) => (nm, i, c.stepF nm, c.haloF nm)
+  let splits := ps.followers.map fun (nm, i) => (nm, i, c.stepF nm, c.preF nm, c.haloF nm)
   let Qx := ((loop.zip exts).lookup c.q0).getD 0
   if ps.modeB then
     ({ loop := loop, exts := exts, outName := S0.outName, outVars := S0.outVars.map fun v => if v == ps.q then c.q0 else v,
@@ -404,13 +405,13 @@ def nestAff (j : Json) : Except String Json := do
           | .error _ => throw "env"
         let envF : String → Option Int := fun x => envL.lookup x
         let calls := splitCalls envF s
-        let e1 := splits.flatMap fun (nm, d, st, h) =>
-          if calls.any fun (_, st', d', pre, post) => st' == some (st : Int) && d' == (d : Int) && pre == 0 && post == (h : Int) then []
-          else [s!"no splitUniform({st}, depth={d}, post_halo={h}) for {nm} in the header (calls: {calls.map fun c => (c.2.1, c.2.2)})"]
+        let e1 := splits.flatMap fun (nm, d, st, pr, h) =>
+          if calls.any fun (_, st', d', pre, post) => st' == some (st : Int) && d' == (d : Int) && pre == (pr : Int) && post == (h : Int) then []
+          else [s!"no splitUniform({st}, depth={d}, pre_halo={pr}, post_halo={h}) for {nm} in the header (calls: {calls.map fun c => (c.2.1, c.2.2)})"]
         let rl := rangeLoops envF (ps.q ++ "1") [0, (ps.n : Int), 2 * (ps.n : Int)] s
         -- a tensor carrying the partitioned rank itself (stride 1, no offset, no halo) is co-iterated at the lower level instead of
         -- the range loop: its lower fiber lies inside the tile, so the tile tensor of the model does not change the iteration
-        let plainFollower := splits.any fun (_, _, st, h) => st == ps.n && h == 0
+        let plainFollower := splits.any fun (_, _, st, pr, h) => st == ps.n && h == 0 && pr == 0
         let e2 := match rl.find? (·.1 == ps.q ++ "0") with
           | some (_, true) => []
           | some (_, false) => [s!"the range loop over {ps.q}0 does not run from {ps.q}1 to min({ps.q}1 + {ps.n}, extent)"]
